@@ -8,7 +8,7 @@ In == ndJsonDeserialize(IOEnv.IN)
 Enc(c) ==
     IF "pic" \notin DOMAIN c THEN c
     ELSE IF ~("opaque" \in DOMAIN c) /\ ~WellFormed(Effective(c.pic)) THEN [illformed |-> TRUE] @@ c
-    ELSE [bytes |-> BytesOfBits(PaddedBits(c.pic)), nbits |-> Len(PictureBits(c.pic))] @@ c
+    ELSE [bytes |-> BytesOfBits(PaddedBits(c.pic)), nbits |-> Len(PictureBits(c.pic)), hbits |-> Len(HeaderBits(c.pic))] @@ c
 VARIABLE n
 Init == n = 0
 Next == /\ n = 0
